@@ -26,6 +26,8 @@ META = {
     "every subset of overrides renders the most-derived text - is NOT decided by this technique.",
     "level_note": "Thin claim by design (DESIGN.md C08). Trusts list.append/indexing semantics.",
 }
+META["technique"] += '; dominance of the `block_scope` test over every hand-over of the block stacks to a copied context'
+META["level_text"] += " Also decided: the parent's block stacks are handed to a copied context only on the block_scope branch."
 
 EXT = "liquid2/builtin/tags/extends_tag.py"
 
